@@ -7,6 +7,11 @@ ALL = ["C%02d" % i for i in range(1, 21)]
 
 # id -> (category, technique, level text, level note, design ref, engine)
 CHECKS = {
+ "C18": ("model_checking",
+         "bounded-exhaustive enumeration of programs: syntax trees rendered with 0/1/2 deviations, all strings up to length 6/7 over an 11-symbol alphabet against a reference recursive-descent parser, and operation texts through the factory",
+         "1812 (quick) syntax trees (pipelines of 1-3 of 12 node shapes with bare/quoted/escaped/list values, 0-2 nested sources incl. a second nesting level) are rendered canonically, with every single deviation (4 whitespace variants at each optional site, quoting of each bare value) and every pair of deviations for the first 1500 trees (7 M texts): the guarded parse_vpl must return exactly the tree. Every string of length <= 6 (1.9 M; <= 7 = 21 M in thorough) over a 1 k = \" \\ [ ] , | space and all single-character edits of two valid texts: parse_vpl and the reference parser of the documented grammar must both reject or both accept with equal trees. Factory: 9 valid and 33 invalid operation texts (unknown names, misplaced operations, missing/mistyped/out-of-range/wrong-arity parameters) and 12 orderings of non-commuting stages (built pipeline applies operations in written order).",
+         "Constructs the documentation is silent about (repeated keys, empty lists, trailing separators, empty quoted strings) are not judged; unknown parameter names and non-boolean text for boolean flags are silently ignored by the implementation and are not judged either. Uses the guarded re-export hook of the parser.",
+         "3/C18", "E-enum"),
  "C09": ("model_checking",
          "bounded-exhaustive enumeration of filter chains (all 81 zoom min/max pairs, lon/lat-alphabet boxes, chains of 2 and 3) x sources x probe coordinates, with a set-model oracle that leaves a 1e-6-tile don't-care band",
          "Every (min,max) over {absent,0,1,2,3,5,31,32,255}, single filter_bbox over the valid boxes of the C15 lon/lat alphabet (every 7th in quick, all 8190 in thorough; points, slivers, antimeridian and pole touching), zoom x bbox, bbox x bbox and 3-filter chains over representative boxes, zoom x zoom chains - over a MemSource (full z0..4, sparse z5, both corners of z31), from_debug and a real versatiles file: every probe coordinate is looked up and whole levels are streamed; a tile passes unchanged iff it is in every retained zoom range and definitely inside every geographic box (definitely outside => absent; within the rounding guard => not asserted). 19 invalid argument texts (reversed, out of range, wrong arity, nan/inf, text, negative/oversized zoom) must be errors at build time, never panics.",
